@@ -134,7 +134,7 @@ class H2Peer:
         self.h2_error = False
         self.ws: Dict[int, Any] = {}  # websocket peers per stream (extended CONNECT)
         self.server_settings_seen = False
-        self.stalled: Optional[Tuple[int, int, int, int, bool]] = None
+        self.stalled: Dict[int, Tuple[Any, ...]] = {}  # uploads waiting for credit, per stream
         self.ws_pending: Dict[int, bytearray] = {}
         self.feeding = False
         self.methods: Dict[int, str] = {}
@@ -176,6 +176,9 @@ class H2Peer:
 
     def _log_progress(self, rid: str, n: int, **upd: Any) -> None:
         prog = self.progress.setdefault(rid, {"head": False, "body": 0, "done": False, "begun": True})
+        if "stall" in upd:
+            self.sess.trace.log("c_stall", app=rid, **upd.pop("stall"))
+            return
         if "body_add" in upd:
             prog["body"] += upd.pop("body_add")
         prog.update(upd)
@@ -248,20 +251,27 @@ class H2Peer:
                 payload = pat(pid, off, ln)
                 # respect the server's flow-control and frame size like a real client
                 sent = 0
+                frame = int(st.get("frame", 0)) or None  # payload bytes per DATA frame (default: as large as allowed)
                 while sent < ln or (ln == 0 and sent == 0):
                     room = min(self.conn.local_flow_control_window(sid), self.conn.max_outbound_frame_size)
-                    n = min(room, ln - sent)
+                    pad = st.get("pad")
+                    if pad is not None and room < pad + 2:
+                        pad = None  # a padded frame no longer fits: a client sends what does fit
+                    if pad is not None:
+                        room -= pad + 1
+                    n = min(room, ln - sent, frame or ln)
                     if n <= 0 and ln > 0:
                         break
                     last = sent + n >= ln
                     self.conn.send_data(sid, payload[sent : sent + n], end_stream=bool(st.get("end", False)) and last,
-                                        pad_length=st.get("pad"))
+                                        pad_length=pad)
                     sent += n
                     if ln == 0:
                         break
                 after.append((rid, {"body_add": sent, "done": bool(st.get("end", False)) and sent >= ln}))
                 if sent < ln:
-                    self.stalled = (sid, pid, off + sent, ln - sent, bool(st.get("end", False)))
+                    self.stalled[sid] = (sid, pid, off + sent, ln - sent, bool(st.get("end", False)), frame, st.get("pad"))
+                    after.append((rid, {"stall": self._stall_info(sid, ln - sent)}))
             elif op == "end":
                 sid = st["stream"]
                 self.conn.end_stream(sid)
@@ -430,8 +440,8 @@ class H2Peer:
                         peer.accept_response([[_s(n), _s(v), _s(n).lower()] for n, v in event.headers])
                         self.ws[sid] = peer
         if any(isinstance(e, h2.events.WindowUpdated) for e in events):
-            if self.stalled is not None:
-                self._resume_upload()
+            for sid in sorted(self.stalled):
+                self._resume_upload(sid)
             for sid in list(self.ws_pending):
                 self._pump_ws(sid)
         if self.feeding:
@@ -453,25 +463,45 @@ class H2Peer:
         if reply and not self.sess.env.client_is_gone and not self.sess.env.server_closed:
             self.sess.env.feed(reply)
 
-    def _resume_upload(self) -> None:
-        sid, pid, off, left, end = self.stalled
+    def _stall_info(self, sid: int, left: int) -> Dict[str, Any]:
+        """Which of the server's windows keeps the rest of an upload back."""
+        cw = self.conn.outbound_flow_control_window
+        try:
+            sw = self.conn._get_stream_by_id(sid).outbound_flow_control_window
+        except Exception:  # noqa: BLE001 - the stream is gone for the client library
+            sw = -1
+        return {"left": left, "sw": sw, "cw": cw}
+
+    def _resume_upload(self, sid: int) -> None:
+        sid, pid, off, left, end, frame, pad0 = self.stalled[sid]
         rid = self.rid_of.get(sid, "none")
         sent = 0
         try:
             while sent < left:
                 room = min(self.conn.local_flow_control_window(sid), self.conn.max_outbound_frame_size)
-                n = min(room, left - sent)
+                pad = pad0
+                if pad is not None and room < pad + 2:
+                    pad = None
+                if pad is not None:
+                    room -= pad + 1
+                n = min(room, left - sent, frame or left)
                 if n <= 0:
                     break
                 last = sent + n >= left
-                self.conn.send_data(sid, pat(pid, off + sent, n), end_stream=end and last)
+                self.conn.send_data(sid, pat(pid, off + sent, n), end_stream=end and last, pad_length=pad)
                 sent += n
         except h2.exceptions.H2Error:
-            self.stalled = None
+            del self.stalled[sid]
+            self.sess.trace.log("c_stall", app=rid, left=0, sw=-1, cw=-1)
             return
-        self.stalled = None if sent >= left else (sid, pid, off + sent, left - sent, end)
+        if sent >= left:
+            del self.stalled[sid]
+        else:
+            self.stalled[sid] = (sid, pid, off + sent, left - sent, end, frame, pad0)
         if sent:
             self._log_progress(rid, sent, body_add=sent, done=end and sent >= left)
+            info = self._stall_info(sid, left - sent)
+            self.sess.trace.log("c_stall", app=rid, **info)
 
     def ws_send(self, sid: int, data: bytes) -> bytes:
         """Wrap websocket bytes into DATA frames of stream sid (respecting frame size and the
